@@ -20,9 +20,6 @@ LEVEL = ("def-use analysis on the template flow graph: each generated scope (cla
          "parser's syntax trees - where the fields of a prepared format string come from.")
 
 TEMPLATES = ("model.py.jinja", "endpoint_module.py.jinja")
-# R18.4 (two document names, one identifier) finds defects of the pinned tree that known_findings.json does not list yet: it is
-# switched on by the commit that follows this one, so that the two can be merged apart
-HOLE_COLLISIONS = False
 
 
 def type_idents(ix: Any) -> frozenset[str]:
@@ -653,8 +650,7 @@ def run(rep: Report, ctx: Any) -> str:
                 class_reads(rep, sc, tn, path, reserved, endpoint_reserved,
                             {e.name for e in root.events if not e.hole and e.kind == "BIND"})
                 continue
-            if HOLE_COLLISIONS:
-                n_pairs += hole_collisions(rep, sc, tn, path, reserved, endpoint_reserved)
+            n_pairs += hole_collisions(rep, sc, tn, path, reserved, endpoint_reserved)
             evs = attributed_events(sc)
             fixed_names = sorted({e.name for e in evs if not e.hole})
             hole_binds = [e for e in sc.events if e.hole and e.kind in ("BIND", "PARAM")]
@@ -697,8 +693,7 @@ def run(rep: Report, ctx: Any) -> str:
     rep.floor("skeleton_events", n_events, 7500)
     rep.floor("identifier_hole_sites", n_sites, 10)
     rep.floor("wire_name_roots", n_raw, 3)
-    if HOLE_COLLISIONS:
-        rep.floor("overlapping_hole_classes", n_pairs, 40)
+    rep.floor("overlapping_hole_classes", n_pairs, 40)
     rep.floor("prepared_format_strings", n_fmt, 1)
     rep.indexed["skeleton_truncated_recursions"] = w.truncated
 
@@ -748,8 +743,6 @@ def run(rep: Report, ctx: Any) -> str:
                 == [("e.text", "e.items[*].python_name")])
     rep.not_decided.append("class-body reads of names that are not bound by template text at module level (e.g. helpers imported through "
                            "a property's own import lines and called in an attribute default)")
-    if not HOLE_COLLISIONS:
-        rep.not_decided.append("hole-versus-hole collisions between affixed names (e.g. list `a` and a property `a_item_data`)")
     rep.not_decided.append("R18.4 follows the unrolled layout (two rounds of a top-level loop, one of a deeper one; item nesting as deep "
                            "as macro recursion is followed) and function scopes only: two document-named class attributes of different "
                            "classes are not compared")
